@@ -101,14 +101,24 @@ for _k in range(len(CHILD)):
     _mk_panel(_k, ("thorough",), 3400, 4, 60)
 
 
-@symx("C08-padding", timeout=900, kind="C+S", functions=F8,
+@symx("C08-padding", timeout=1500, kind="C+S", functions=F8, tiers=("thorough",),
       bounds="Padding around the 5 children x top/right/bottom/left in 0..2 x expand x available width from the structural minimum to "
              "40: equal line widths (== width when expanding), exactly the requested blank lines and side cells, child lines unchanged")
 def c08_padding(e):
+    return _padding_body(e, 2, 40)
+
+
+@symx("C08-padding-quick", timeout=900, kind="C+S", functions=F8, tiers=("quick",),
+      bounds="as C08-padding with top/right/bottom/left in 0..1 and width up to 30")
+def c08_padding_q(e):
+    return _padding_body(e, 1, 30)
+
+
+def _padding_body(e, pmax, wmax):
     k = int(e.mk("child", 0, len(CHILD) - 1))
-    pt, pr, pb, pl = [int(e.mk(n, 0, 2)) for n in ("top", "right", "bottom", "left")]
+    pt, pr, pb, pl = [int(e.mk(n, 0, pmax)) for n in ("top", "right", "bottom", "left")]
     expand = bool(e.mkbool("expand"))
-    w = int(e.mk("width", 1, 40))
+    w = int(e.mk("width", 1, wmax))
     if w < pl + pr + CHILD_MIN[k]:
         return True
     c = cat.console()
